@@ -9,7 +9,7 @@ import json, os, random, re
 REPO = os.environ.get("VERIF_REPO", "/repo")
 HARNESS_OVERRIDE = None     # set by gen_checks when the harness module is a scratch copy
 
-KINDS = ["struct", "ptr", "int", "slice", "map", "generic", "ext", "any"]
+KINDS = ["struct", "ptr", "int", "slice", "map", "generic", "ext", "any", "bytes"]
 PARAM_KINDS = KINDS + ["errv", "errv"]     # the type error can only come from cff.Params (a task's error result is not a value)
 SENTINEL = "h.Sentinel"
 
@@ -38,23 +38,29 @@ class Ty:
             return "type %s[T any] struct {\n\tV   T\n\tTok int\n}\n" % n
         return ""
 
-    def go(self):
+    def go(self, alt=False):
+        """The Go spelling of the type; alt: another spelling of the identical type (any / interface{},
+        []byte / []uint8): provider and consumer need not spell a type the same way."""
         n = self.n
+        if alt and self.kind == "any":
+            return "interface{}"
+        if alt and self.kind == "bytes":
+            return "[]uint8"
         return {"struct": n, "ptr": "*" + n, "int": n, "slice": "[]%sE" % n, "map": "map[string]%sE" % n,
-                "generic": "%s[string]" % n, "ext": "ext.E%d" % self.k, "any": "any", "errv": "error"}[self.kind]
+                "generic": "%s[string]" % n, "ext": "ext.E%d" % self.k, "any": "any", "errv": "error", "bytes": "[]byte"}[self.kind]
 
     def mk(self, tok):
         n = self.n
         return {"struct": "%s{Tok: %s}" % (n, tok), "ptr": "&%s{Tok: %s}" % (n, tok), "int": "%s(%s)" % (n, tok),
                 "slice": "[]%sE{{Tok: %s}}" % (n, tok), "map": 'map[string]%sE{"k": {Tok: %s}}' % (n, tok),
                 "generic": "%s[string]{Tok: %s}" % (n, tok), "ext": "ext.E%d{Tok: %s}" % (self.k, tok),
-                "any": "any(h.TokBox{Tok: %s})" % tok, "errv": "h.TokErr(%s)" % tok}[self.kind]
+                "any": "any(h.TokBox{Tok: %s})" % tok, "errv": "h.TokErr(%s)" % tok, "bytes": "h.TokBytes(%s)" % tok}[self.kind]
 
     def acc(self, v):
         n = self.n
         return {"struct": "%s.Tok" % v, "ptr": "tok%s(%s)" % (n, v), "int": "int(%s)" % v,
                 "slice": "tok%s(%s)" % (n, v), "map": '%s["k"].Tok' % v, "generic": "%s.Tok" % v,
-                "ext": "%s.Tok" % v, "any": "h.AnyTok(%s)" % v, "errv": "h.ErrTok(%s)" % v}[self.kind]
+                "ext": "%s.Tok" % v, "any": "h.AnyTok(%s)" % v, "errv": "h.ErrTok(%s)" % v, "bytes": "h.BytesTok(%s)" % v}[self.kind]
 
 
 # ------------------------------------------------------------------ rendering
@@ -117,6 +123,50 @@ def unit(prog, uid):
     raise KeyError(uid)
 
 
+def gen_emit_tree(rng, max_leaves=4):
+    """A forest of emitter expressions: ["L"] a recording leaf, ["N"] cff.NopEmitter(), ["S", child...] an
+    EmitterStack (possibly empty, possibly of one element), nested up to depth 3.  Returns (forest, leaves)."""
+    left = [rng.randint(1, max_leaves)]
+
+    def node(depth):
+        r = rng.random()
+        if depth >= 3 or r < 0.45:
+            if left[0] > 0 and rng.random() < 0.8:
+                left[0] -= 1
+                return ["L"]
+            return ["N"]
+        return ["S"] + [node(depth + 1) for _ in range(rng.choice([0, 1, 2, 2, 3]))]
+
+    forest = [node(1) for _ in range(rng.choice([1, 2, 2, 3]))]
+    count = [0]
+
+    def walk(n):
+        if n[0] == "L":
+            count[0] += 1
+        for ch in n[1:]:
+            walk(ch)
+    for n in forest:
+        walk(n)
+    if count[0] == 0:
+        forest.append(["L"])
+        count[0] = 1
+    return forest, count[0]
+
+
+def emit_tree_exprs(forest):
+    """Go expressions of the forest; recording leaves are numbered in depth-first order."""
+    k = [0]
+
+    def expr(n):
+        if n[0] == "L":
+            k[0] += 1
+            return "x.Emitter(%d)" % k[0]
+        if n[0] == "N":
+            return "x.Nop()"
+        return "cff.EmitterStack(%s)" % ", ".join(expr(ch) for ch in n[1:])
+    return [expr(n) for n in forest]
+
+
 def render_flow(p):
     st = p["style"]
     name = p["name"]
@@ -154,6 +204,8 @@ def render_flow(p):
         shape = st.get("emitshape", "flat")
         if shape == "stack2" and p["leaves"] == 2:
             return "\t\tcff.WithEmitter(%s),\n" % w.arg("x.Stack2(1, 2)")
+        if shape == "tree":
+            return "".join("\t\tcff.WithEmitter(%s),\n" % w.arg(e) for e in emit_tree_exprs(st["emittree"]))
         if shape == "shared" and p["leaves"] == 4:
             # a process-wide nested stack of three leaves shared by all executions, then an emitter of this execution
             return "\t\tcff.WithEmitter(%s),\n\t\tcff.WithEmitter(%s),\n" % (w.arg("h.Team()"), w.arg("x.Emitter(4)"))
@@ -168,7 +220,8 @@ def render_flow(p):
         return "\t\tcff.InstrumentFlow(%s),\n" % w.arg('"%s"' % name)
 
     def opt_task(u):
-        ins = ", ".join(["a%d %s" % (i, tys[ty].go()) for i, ty in enumerate(u["ins"])])
+        altp = st.get("altspell", {}).get(str(u["id"]), False)
+        ins = ", ".join(["a%d %s" % (i, tys[ty].go(altp)) for i, ty in enumerate(u["ins"])])
         params = ("ctx context.Context" + (", " if ins else "") if u["wantctx"] else "") + ins
         rets = [tys[ty].go() for ty in u["outs"]] + (["error"] if u["haserr"] else [])
         retsig = "" if not rets else (" " + rets[0] if len(rets) == 1 else " (" + ", ".join(rets) + ")")
@@ -193,7 +246,7 @@ def render_flow(p):
             s = "\t\tcff.Task(\n\t\t\t%s,\n" % w.arg(fn)
         if u["pred"]:
             q = unit(p, u["pred"])
-            pins = ", ".join(["a%d %s" % (i, tys[ty].go()) for i, ty in enumerate(q["ins"])])
+            pins = ", ".join(["a%d %s" % (i, tys[ty].go(st.get("altspell", {}).get(str(q["id"]), False))) for i, ty in enumerate(q["ins"])])
             pparams = ("ctx context.Context" + (", " if pins else "") if q["wantctx"] else "") + pins
             ptoks = "".join(", " + tys[ty].acc("a%d" % i) for i, ty in enumerate(q["ins"]))
             pfn = "func(%s) bool {\n\t\t\t\treturn x.Pred(%d, %s%s)\n\t\t\t}" % (
@@ -351,6 +404,9 @@ def render_parallel(p):
             elif p["coemode"] == "expr":
                 text += "\t\tcff.ContinueOnError(%s),\n" % w.arg("x.Coe()")
         elif o == "emit":
+            if st.get("emitshape") == "tree":
+                text += "".join("\t\tcff.WithEmitter(%s),\n" % w.arg(e) for e in emit_tree_exprs(st["emittree"]))
+                continue
             if st.get("emitshape") == "shared" and p["leaves"] == 4:
                 text += "\t\tcff.WithEmitter(%s),\n\t\tcff.WithEmitter(%s),\n" % (w.arg("h.Team()"), w.arg("x.Emitter(4)"))
                 continue
@@ -491,7 +547,7 @@ def pick_kinds(rng, ntypes, params):
     out, used = {}, set()
     for k in range(1, ntypes + 1):
         kind = rng.choice(PARAM_KINDS if k in params else KINDS)
-        if kind in ("any", "errv"):
+        if kind in ("any", "errv", "bytes"):
             if kind in used:
                 kind = "struct"
             used.add(kind)
@@ -559,12 +615,17 @@ def gen_flow(rng, name, max_tasks=4, features=None, plain=False):
     emitshape = rng.choice(["flat", "flat", "stack2", "nop"])
     if leaves > 0 and rng.random() < 0.25:
         leaves, emitshape = 4, "shared"
+    emittree = None
+    if leaves > 0 and emitshape != "shared" and rng.random() < 0.4:
+        emittree, leaves = gen_emit_tree(rng)
+        emitshape = "tree"
     p = dict(name=name, dir="flow", ntypes=ntypes, params=params, results=results, units=units, nargsexpr=0,
              leaves=leaves, instr=instr, hasconc=rng.random() < 0.7, coemode="none", autoins=False, mode="base",
              style=dict(tkind=pick_kinds(rng, ntypes, params), order=order,
                         spell={str(u["id"]): rng.choice(["lit", "lit", "paren", "method"]) for u in units},
                         argforms=rng.choice([["call"], ["call", "call", "ident"], ["call", "ident"]]), argseed=rng.randint(0, 10**6),
-                        emitshape=emitshape))
+                        altspell={str(u["id"]): rng.random() < 0.5 for u in units},
+                        emitshape=emitshape, emittree=emittree))
     return p
 
 
@@ -599,6 +660,9 @@ def gen_parallel(rng, name):
     leaves = rng.choice([0, 0, 1, 2])
     if leaves > 0 and rng.random() < 0.25:
         leaves, style["emitshape"] = 4, "shared"
+    elif leaves > 0 and rng.random() < 0.4:
+        style["emittree"], leaves = gen_emit_tree(rng)
+        style["emitshape"] = "tree"
     for u in units:
         if u["kind"] == "ptask" and leaves > 0 and rng.random() < 0.6:
             u["instr"] = True
@@ -680,7 +744,7 @@ def gen_scenario(rng, p, mode="mixed"):
             elif r < ppanic + pfail and u["haserr"]:
                 out[k] = "err"
         if out.get(k) == "panic":
-            kind = rng.choice(["str", "err", "struct", "rt"])
+            kind = rng.choice(["str", "err", "struct", "rt", "slice", "ustruct"])
             if kind == "rt":
                 if rtused:
                     kind = "str"
@@ -714,7 +778,7 @@ def fault_scenarios(rng, p):
     panics, and (if it can return an error) one in which only it fails; for predicates also one
     in which only it returns false."""
     out = []
-    kinds = ["str", "err", "struct", "rt"]
+    kinds = ["str", "err", "struct", "rt", "slice", "ustruct"]
     for u, i in insts(p):
         k = str(u["id"]) if i < 0 else "%d:%d" % (u["id"], i)
         faults = ["panic"] + (["err"] if u["haserr"] else []) + (["false"] if u["kind"] == "pred" else [])
